@@ -137,6 +137,12 @@ def run_replicas(scn, reps):
         if plan and r is not None and name in plan["on"] and not getattr(r, "added", False) and r.config is not None:
             r.config.add(pl.build_config(plan["config"]))
             r.added = True
+        edit = scn.get("edit_after_run")
+        if edit and r is not None and name in edit["on"] and not getattr(r, "edited", False) and r.config is not None:
+            # "the list of quality checks ... can be appended and edited until they are ready to be run":
+            # one call is replaced in place by a call of the same test with other parameters
+            r.config.calls[edit["call_index"]] = pl.build_config(edit["one_call_config"]).calls[0]
+            r.edited = True
 
     sch = Scheduler(
         tasks,
